@@ -5,7 +5,10 @@ mis-parsed); strings valid / truncated / permuted / upper-cased; equality and ha
 fields / field_names; declared dtype = type of the stored data after edits through the accessor and the frame."""
 from __future__ import annotations
 
+import os
 import pickle
+
+import numpy as np
 
 import pandas as pd
 import pyarrow as pa
@@ -212,7 +215,7 @@ def generate(ctx):
                 for _ in range(rng.randint(1, 4)):
                     ty = rng.choice(list(gen.TYPES))
                     nm = rng.choice(["new1", "new2"] + [n for n, _ in inpc["schema"]])
-                    how = rng.choice(["with_flat_field", "with_list_field", "without_field", "frame_setitem", "nest_getitem", "query", "setitem_el"])
+                    how = rng.choice(["with_flat_field", "with_list_field", "without_field", "frame_setitem", "nest_getitem", "query", "setitem_el", "query", "setitem_el"])
                     cur = nf["n"]
                     names_now = list(cur.nest.fields)
                     if how == "with_flat_field":
@@ -226,6 +229,16 @@ def generate(ctx):
                         cur = nf["n"]
                     elif how == "nest_getitem":
                         cur = cur.nest[[rng.choice(names_now)]]
+                    elif how in ("query", "setitem_el"):
+                        # in place through the accessor: a constant / an array whose natural Arrow type is NOT the field's
+                        # (an int for a double field): the field keeps its type, and what the series, its array and the storage declare agree
+                        dbl = [f.name for f in cur.array.chunked_array.type if str(f.type.value_type) == "double"]
+                        if dbl:
+                            fld = rng.choice(dbl)
+                            cur.nest[fld] = 1 if how == "query" else np.arange(sum(lens), dtype=np.int64)
+                            how = "nest_setitem_scalar" if how == "query" else "nest_setitem_array"
+                            assert str(cur.array.chunked_array.type.field(fld).type.value_type) == "double", \
+                                f"the element type of {fld} changed under an in-place assignment through the accessor"
                     steps.append(how)
                     assert cur.dtype == cur.array.dtype, f"series dtype differs from array dtype after {how}"
                     assert cur.dtype.pyarrow_dtype == cur.array.chunked_array.type, f"declared dtype differs from the storage type after {how}"
@@ -241,6 +254,47 @@ def generate(ctx):
         cases.append({"stream": "dtype", "op": kind, "term": term, "input": inp, "impl_repr": str(res)[:500],
                       "meta": {"impl_raised": res[0] == "err"}, "sig": [kind, str(inp)[:60]], "trivial": False,
                       "hist": {"op": kind, "raised": res[0] == "err", "mangle": inp.get("mangle", "-") if isinstance(inp, dict) else "-"}})
+    cases.append(other_process_case(rng, alias_types))
     for k, c in enumerate(cases):
         c["cid"] = k
     return cases
+
+
+def other_process_case(rng, alias_types):
+    """a dtype pickled HERE and read in ANOTHER interpreter (other hash seed) equals and hashes like a dtype built there"""
+    import json
+    import subprocess
+    import sys
+    import tempfile
+    dts = []
+    for _ in range(12):
+        k = rng.randint(1, 3)
+        fields = dict(zip(rng.sample(NAMES, k), [rng.choice(alias_types) for _ in range(k)]))
+        dts.append(NestedDtype.from_fields(fields))
+    ser = pd.Series(pack_seq_for(dts[0]), name="n")
+    script = (
+        "import pickle, sys, json\n"
+        "from nested_pandas.series.dtype import NestedDtype\n"
+        "dts, ser = pickle.load(open(sys.argv[1], 'rb'))\n"
+        "bad = []\n"
+        "for i, d in enumerate(dts + [ser.dtype]):\n"
+        "    fresh = NestedDtype.from_fields(dict(d.fields))\n"
+        "    if not (d == fresh and hash(d) == hash(fresh) and {fresh: 1}.get(d) == 1 and len({d, fresh}) == 1 and d.name == fresh.name):\n"
+        "        bad.append(i)\n"
+        "print(json.dumps(bad))\n")
+    with tempfile.TemporaryDirectory(prefix="verif_c17_") as td:
+        pth = os.path.join(td, "d.pkl")
+        with open(pth, "wb") as fh:
+            pickle.dump((dts, ser), fh)
+        env = dict(os.environ, PYTHONHASHSEED="4242")
+        r = attempt(lambda: subprocess.run([sys.executable, "-c", script, pth], env=env, capture_output=True, text=True, timeout=120))
+    ok = r[0] == "ok" and r[1].returncode == 0 and r[1].stdout.strip().splitlines()[-1:] == ["[]"]
+    rep = r[1] if r[0] == "err" else (r[1].stdout[-300:] + r[1].stderr[-300:])
+    return {"stream": "dtype", "op": "pickle_other_process", "term": f"[true; {cq_bool(ok)}; true; true]",
+            "input": {"dtypes": [d.name for d in dts]}, "impl_repr": str(rep)[:500], "meta": {"impl_raised": False},
+            "sig": ["pickle_other_process"], "trivial": False, "hist": {"op": "pickle_other_process", "raised": False, "mangle": "-"}}
+
+
+def pack_seq_for(dtype):
+    from nested_pandas.series.packer import pack_seq
+    return pack_seq([None, None], dtype=dtype).array
